@@ -101,6 +101,12 @@ func C20Payload(tape *simrt.Tape, tier string) ([]byte, string) {
 
 var c20Procs sync.Once
 
+// C20PinProcs pins the process to one P. klauspost/zstd picks its threading
+// mode from GOMAXPROCS when an instance is created; one P (the workers'
+// setting) keeps every step of a run on the caller's own goroutine, whatever
+// the environment says.
+func C20PinProcs() { c20Procs.Do(func() { runtime.GOMAXPROCS(1) }) }
+
 // ---------------------------------------------------------------------------
 
 type c20Job struct {
@@ -166,6 +172,8 @@ func c20GenJob(tape *simrt.Tape, tier string, task, seq int) *c20Job {
 	small := len(j.payload) <= 256
 	if small {
 		j.ReadBuf = []int{4096, 1, 7, 512}[tape.Choose(4, "job.readbuf")]
+	} else if len(j.payload) > 64<<10 {
+		j.ReadBuf = []int{32 << 10, 4096, 64 << 10, 1024}[tape.Choose(4, "job.readbuf")]
 	} else {
 		j.ReadBuf = []int{4096, 512, 32 << 10, 100}[tape.Choose(4, "job.readbuf")]
 	}
@@ -630,6 +638,8 @@ func (x *c20Exec) decode(j *c20Job, valid []byte) {
 	short := j.Kind
 	if j.Fault != "" && !isValid {
 		short = j.Fault
+	} else if j.Fault != "" {
+		short = "intact-stream" // the corruption had nothing to act on (empty valid stream)
 	}
 	if p != "" {
 		x.viol("c20/panic", "decompressor d%d (%s) panicked in job %s [%s, source %s, read buffer %d] on payload %s: %s", di.id, c20Hist(di.hist), entry, what, j.Source, j.ReadBuf, j.Payload, p)
@@ -644,7 +654,6 @@ func (x *c20Exec) decode(j *c20Job, valid []byte) {
 		} else if (readErr != nil && readErr != io.EOF) || !bytes.HasPrefix(j.payload, out) {
 			x.viol(class, "decompressor d%d (%s): partial read of a valid stream of %s: %s", di.id, c20Hist(di.hist), j.Payload, c20Diff(out, readErr, j.payload[:len(out)]))
 		}
-		x.res.Cover = append(x.res.Cover, x.enc.Name+": "+prev+" -> abandon")
 	case isValid:
 		x.res.Probes["valid-after:"+strings.SplitN(prev, "/", 2)[0]]++
 		x.res.Cover = append(x.res.Cover, x.enc.Name+": "+prev+" -> valid")
@@ -729,10 +738,7 @@ func (x *c20Exec) runJob(j *c20Job) {
 }
 
 func c20PoolRun(t *testing.T, tape *simrt.Tape, o simwork.Opts) *simwork.Result {
-	// klauspost/zstd picks its threading mode from GOMAXPROCS when an instance
-	// is created; one P (the workers' setting) keeps every step of a run on
-	// the task's own goroutine, whatever the environment says
-	c20Procs.Do(func() { runtime.GOMAXPROCS(1) })
+	C20PinProcs()
 	res := &simwork.Result{Faults: map[string]int{}, Probes: map[string]int{}}
 	p := simwork.Bubble(t, func(t *testing.T) { c20PoolBody(tape, o, res) })
 	if p != nil {
